@@ -119,7 +119,8 @@ def main():
                                                   'divergences': ctx.divergences[:10], 'notes': ctx.notes[-3:]})
             print('VIOLATION property=%s replay=%s no-failing-input-found' % (pid, p))
         rc = 1
-    core.write_evidence(pid, ctx, mod, obligations, discharged, ctx.hist.get('violations', 0) + (1 if rc and not ctx.violations else 0))
+    if not a.no_build:          # --no-build is a debugging aid: it discharges no theorem and must not overwrite the evidence record
+        core.write_evidence(pid, ctx, mod, obligations, discharged, ctx.hist.get('violations', 0) + (1 if rc and not ctx.violations else 0))
     print('%s %s tier=%s seed=%d evaluations=%d nontrivial=%d theorems=%d/%d wall=%.1fs' % (
         pid, 'OK' if rc == 0 else 'FAIL', tier, seed, ctx.evaluations, len(ctx.nontrivial), len(discharged), len(obligations), time.time() - ctx.t0))
     return rc
